@@ -343,6 +343,88 @@ func planC09(tier string, root *simcore.RNG) *plan {
 			}
 		}
 	}
+	// trigger sweeps over the renderers' own synchronisation: the consumer (or the
+	// evaluations about to store their value) is held back and let through exactly when
+	// another goroutine is parked at the k-th distinct instrumented code location
+	{
+		r0 := root.Fork()
+		have := map[string]bool{}
+		for _, s := range cat {
+			have[s.key()] = true
+		}
+		list := []c09sig{{"mcu", pick(r0, model3Names), "stl", 12}, {"mcu", pick(r0, model3Names), "3mf", 10}, {"msq", pick(r0, model2Names), "dxf", 60}, {"mco", pick(r0, model3Names), "stl", 16}}
+		kmax := 12
+		if tier == "thorough" {
+			kmax = 20
+		}
+		for _, s := range list {
+			if !have[s.key()] {
+				have[s.key()] = true
+				cat = append(cat, s)
+				pl.scenarios = append(pl.scenarios, &Scenario{Prop: "C09", Family: "render", Seed: r0.Uint64(), Groups: [][]Job{{s.job(1)}},
+					Sched: Sched{Policy: "fifo"}, Sites: map[string]uint32{}, Env: Env{GOMAXPROCS: 16, CPUs: 16}, Note: "canonical"})
+			}
+			for k := 1; k <= kmax; k++ {
+				r := root.Fork()
+				j := s.job(1)
+				vic := "consumer"
+				sites := map[string]uint32{"close": 1, "go.start": 1, "worker.start": 1, "auto": 1, "write": 8, "mc.sent": 1}
+				if s.kind == "mcu" && k%2 == 0 {
+					vic = "evalpost"
+					j.EvalMod = 8
+					sites["eval.pre"], sites["eval.post"] = 8, 8
+				}
+				for _, hs := range sinkSites(s.sink) {
+					sites[hs] = 1
+				}
+				pl.scenarios = append(pl.scenarios, &Scenario{Prop: "C09", Family: "render", Seed: r.Uint64(), Groups: [][]Job{{j}},
+					Sites: sites, Sched: Sched{Policy: "starve", Victim: vic, Trig: (k + 1) / 2 * 2 / 2, Seed: r.Uint64()},
+					Env: Env{GOMAXPROCS: pick(r, []int{1, 4, 16}), CPUs: pick(r, []int{4, 16})}, Note: "trigger-sweep", StepCap: 4000000})
+			}
+		}
+	}
+	// resolutions at which caches, tables and pools reach their limits (an octree render of
+	// several million distance-cache entries, a uniform render of a few million samples):
+	// canonical and one more fresh process each
+	{
+		r0 := root.Fork()
+		list := []c09sig{{"mco", "cube", "tri", 400}, {"mcu", "sphere-box", "tri", 150}}
+		if tier == "thorough" {
+			list = append(list, c09sig{"mco", "cube", "tri", 540}, c09sig{"mco", "sphere-box", "stl", 450}, c09sig{"mco", "csg", "tri", 420}, c09sig{"msq", "poly", "dxf", 2000}, c09sig{"msu", "circle-box", "dxf", 1500})
+		}
+		for _, s := range list {
+			cat = append(cat, s)
+			pl.scenarios = append(pl.scenarios, &Scenario{Prop: "C09", Family: "render", Seed: r0.Uint64(), Groups: [][]Job{{s.job(1)}},
+				Sched: Sched{Policy: "fifo"}, Sites: map[string]uint32{}, Env: Env{GOMAXPROCS: 16, CPUs: 16}, Note: "canonical", StepCap: 8000000})
+			r := root.Fork()
+			pl.scenarios = append(pl.scenarios, &Scenario{Prop: "C09", Family: "render", Seed: r.Uint64(), Groups: [][]Job{{s.job(1)}},
+				Sites: map[string]uint32{"close": 1}, Sched: Sched{Policy: "fifo"},
+				Env: Env{GOMAXPROCS: pick(r, []int{2, 4, 16}), CPUs: pick(r, []int{4, 16})}, Note: "high-resolution", StepCap: 8000000})
+		}
+	}
+	// a writer whose final step takes 11 s of real time: the file must be complete, and
+	// the same as ever, when the call returns
+	{
+		r0 := root.Fork()
+		have := map[string]bool{}
+		for _, s := range cat {
+			have[s.key()] = true
+		}
+		finals := map[string]string{"stl": "cons.stl.flush", "3mf": "cons.3mf.encode", "dxf": "cons.dxf.save", "svg": "cons.svg.save"}
+		list := []c09sig{{"mco", pick(r0, model3Names), "stl", 12}, {"mcu", pick(r0, model3Names), "3mf", 10}, {"msq", pick(r0, model2Names), "dxf", 30}, {"msu", pick(r0, model2Names), "svg", 30}}
+		for _, s := range list {
+			if !have[s.key()] {
+				have[s.key()] = true
+				cat = append(cat, s)
+				pl.scenarios = append(pl.scenarios, &Scenario{Prop: "C09", Family: "render", Seed: r0.Uint64(), Groups: [][]Job{{s.job(1)}},
+					Sched: Sched{Policy: "fifo"}, Sites: map[string]uint32{}, Env: Env{GOMAXPROCS: 16, CPUs: 16}, Note: "canonical"})
+			}
+			r := root.Fork()
+			pl.scenarios = append(pl.scenarios, &Scenario{Prop: "C09", Family: "render", Seed: r.Uint64(), Groups: [][]Job{{s.job(1)}},
+				Sites: map[string]uint32{"close": 1}, Sched: Sched{Policy: "fifo"}, Env: Env{GOMAXPROCS: pick(r, []int{1, 4, 16}), CPUs: 16},
+				Note: "slow-final-step", ConsStallMs: 11000, ConsStallEvery: 1, ConsStallSite: finals[s.sink]})
+		}
+	}
 	// the whole shape catalogue (every exported constructor and option): each entry is
 	// built and rendered in a canonical process and again in other fresh processes
 	// under another configuration - construction that depends on map iteration
@@ -533,6 +615,13 @@ func c09post(outs []runOut) []violation {
 				vs = append(vs, violation{Prop: "C09", Class: "dxf-owner-handles",
 					Msg: fmt.Sprintf("job %d (%s): the DXF file differs from the canonical execution's only in handle references (owner 330, plot style 390) of the table records that yofu/dxf shares between drawings; %d DXF drawings were alive in this process", j.ID, j.Sig, others),
 					Sig: "dxf-owner-handles|" + sigKind(j.Sig),
+					Sc:  o.sc, Ref: canonSc[j.Sig], RefDig: want, Trace: o.res.TraceHash})
+				break
+			}
+			if j.Digest == want && j.DigestRet != "" && j.DigestRet != want {
+				vs = append(vs, violation{Prop: "C09", Class: "incomplete-at-return",
+					Msg: fmt.Sprintf("job %d (%s): when the call returned the output was %s (digest of the canonical execution %s); it reached its final state only later", j.ID, j.Sig, j.DigestRet, want),
+					Sig: "incomplete-at-return|" + sigKind(j.Sig),
 					Sc:  o.sc, Ref: canonSc[j.Sig], RefDig: want, Trace: o.res.TraceHash})
 				break
 			}
